@@ -193,6 +193,35 @@ __wrap__sha_self_tests(void)
         return r;
 }
 
+/* The portable implementation of the protocol (fips/self_tests_generic.c, C11 atomics; used on non-x86 builds) is compiled on
+ * its own with isal_self_tests -> isal_self_tests_generic and the two stage functions -> gen_*_self_tests below.  Its status
+ * word is a function-local static: every generic behaviour runs in a process of its own. */
+extern int isal_self_tests_generic(void) __attribute__((weak));
+int
+gen_aes_self_tests(void)
+{
+        log_ev("RunAes", me, NULL);
+        my_run = __sync_fetch_and_add(&aes_entries, 1);
+        if (my_run == 0) {
+                sem_post(&inside);
+                usleep((useconds_t) stall_ms * 1000);
+        }
+        return my_run == 0 ? res_aes : res_aes2;
+}
+int
+gen_sha_self_tests(void)
+{
+        log_ev("RunSha", me, NULL);
+        int r = my_run > 0 ? res_sha2 : res_sha;
+        pthread_mutex_lock(&ev_mx);
+        ev_begin("TestsDone");
+        ev_int("t", me);
+        ev_int("sha", r);
+        ev_end();
+        pthread_mutex_unlock(&ev_mx);
+        return r;
+}
+
 static int
 one_call(void)
 {
@@ -202,6 +231,10 @@ one_call(void)
         if (kind == 'm')
                 kind = "kabcgt"[(me < 0 ? 0 : me) % 6];
         switch (kind) {
+        case 'G':
+                if (!isal_self_tests_generic)
+                        die("generic self-test object not linked");
+                return isal_self_tests_generic();
         case 'k': {
                 uint8_t key[16] = { 1, 2, 3 }, enc[16 * 11], dec[16 * 11];
                 return isal_aes_keyexp_128(key, enc, dec);
